@@ -89,18 +89,17 @@ def scanGroupOpen : List Char → Option (List Char) := scanChar '('
 def scanClose : List Char → Option (List Char) := scanChar ')'
 def scanComma : List Char → Option (List Char) := scanChar ','
 
-/-- `^\s*([A-Za-z_]\w+)\s*\(` → (name, rest).  `\w+` is greedy and giving back a word character never helps (the next
-thing would have to be whitespace or `(`), so: all word characters, at least one. -/
+/-- `^\s*([A-Za-z_]\w*)\s*\(` → (name, rest).  `\w*` is greedy and giving back a word character never helps (the next
+thing would have to be whitespace or `(`), so: all word characters.  (Until fix F31 the pattern was `\w+`: a call of a
+function with a one-character name was a syntax error.) -/
 def scanFuncOpen (t : List Char) : Option (List Char × List Char) :=
   match skipWs t with
   | c :: r =>
     if isIdStart c then
       let w := r.takeWhile isWord
-      if w.isEmpty then none
-      else
-        match skipWs (r.dropWhile isWord) with
-        | d :: r2 => if d = '(' then some (c :: w, r2) else none
-        | [] => none
+      match skipWs (r.dropWhile isWord) with
+      | d :: r2 => if d = '(' then some (c :: w, r2) else none
+      | [] => none
     else none
   | [] => none
 
